@@ -215,6 +215,7 @@ type c15TLSTarget struct {
 	auth   bool
 	auto   bool // server in auto-switch mode
 	ticket bool
+	reneg  gmtls.RenegotiationSupport // client-side renegotiation policy
 }
 
 func (t c15TLSTarget) cfgs(pki *tlsPKI, rr *mon.RNG) (*gmtls.Config, *gmtls.Config) {
@@ -244,6 +245,7 @@ func (t c15TLSTarget) cfgs(pki *tlsPKI, rr *mon.RNG) (*gmtls.Config, *gmtls.Conf
 	if t.ticket {
 		ccfg.ClientSessionCache = gmtls.NewLRUClientSessionCache(4)
 	}
+	ccfg.Renegotiation = t.reneg
 	if t.auth {
 		scfg.ClientAuth, scfg.ClientCAs = gmtls.RequireAndVerifyClientCert, pki.pool
 		ccfg.Certificates = []gmtls.Certificate{pki.cliSig}
@@ -260,6 +262,8 @@ func runC15TLS(c *Ctx, pki *tlsPKI) {
 		{name: "tls12-rsa-cbc", suite: gmtls.TLS_RSA_WITH_AES_128_CBC_SHA, ver: gmtls.VersionTLS12, cert: "rsa"},
 		{name: "tls10-ecdhe-rsa-cbc", suite: gmtls.TLS_ECDHE_RSA_WITH_AES_256_CBC_SHA, ver: gmtls.VersionTLS10, cert: "rsa"},
 		{name: "tls11-rsa-cbc", suite: gmtls.TLS_RSA_WITH_AES_128_CBC_SHA, ver: gmtls.VersionTLS11, cert: "rsa"},
+		{name: "tls12-ecdhe-rsa-gcm+client-renegotiation-once", suite: gmtls.TLS_ECDHE_RSA_WITH_AES_128_GCM_SHA256, ver: gmtls.VersionTLS12, cert: "rsa", reneg: gmtls.RenegotiateOnceAsClient},
+		{name: "tls10-ecdhe-rsa-cbc+client-renegotiation-freely", suite: gmtls.TLS_ECDHE_RSA_WITH_AES_256_CBC_SHA, ver: gmtls.VersionTLS10, cert: "rsa", reneg: gmtls.RenegotiateFreelyAsClient},
 		{name: "auto-server/tls12-ecdhe-rsa-gcm", suite: gmtls.TLS_ECDHE_RSA_WITH_AES_128_GCM_SHA256, ver: gmtls.VersionTLS12, cert: "rsa", auto: true},
 	}
 	type job struct {
@@ -291,6 +295,9 @@ func runC15TLS(c *Ctx, pki *tlsPKI) {
 		for _, fc := range []bool{false, true} {
 			if t.auto && !fc {
 				continue // the client of an auto-switch server is the same client as elsewhere
+			}
+			if t.reneg != 0 && fc {
+				continue // the renegotiation policy is a client-side setting: only the server's flight is rewritten
 			}
 			for k, mi := range flights[fc] {
 				add := func(kind string, a, b int) {
